@@ -560,6 +560,19 @@ class LoopMixin:
         if not isinstance(recv.t, TList):
             return None
         lv = f.value
+        if isinstance(lv, ast.Subscript) and f.attr == "append" and len(e.args) == 1:
+            # obj[key].append(x) on an object whose item is a list attribute: the class's assumed `__item_append__(key, x)`
+            out = []
+            for s2, vals in self.ev_list([lv.value, lv.slice, e.args[0]], st):
+                if isinstance(vals, Raised):
+                    out.append((s2, vals))
+                    continue
+                base = vals[0]
+                if not isinstance(base.t, TRef):
+                    raise EngineError(f"list mutation on a temporary: {ast.unparse(e)}")
+                for s3, m in self.getattr(base, "__item_append__", s2, e):
+                    out.extend(self.apply(m, [vals[1], vals[2]], {}, s3, e))
+            return out
         if not isinstance(lv, (ast.Name, ast.Attribute)):
             raise EngineError(f"list mutation on a temporary: {ast.unparse(e)}")
         out = []
